@@ -431,6 +431,13 @@ def register(reg):
             "locopt_add_r": "forall(lambda t, x: implies(x > r[t] and exists(lambda j: r[j] + 1 >= x, 0, n), "
                             "SR_AD(r, cost_matrix_1d, t, n, x) >= -0.001), 0, n, 0, n + 2)",
             "locopt_add_l": "forall(lambda t, x: implies(x <= r[t], SL_AD(r, cost_matrix_1d, t, n, x) >= -0.001), 0, n, 0, n + 1)",
+            # semantic form (through the delta lemmas): for every element t, joining any other existing bucket x, or
+            # standing alone in a new bucket at any position x, changes the sum over the other elements e2 of the
+            # pairwise cost of (t, e2) by no less than -0.001
+            "locopt_sem_join": "forall(lambda t, x: implies(x != r[t] and exists(lambda j: r[j] == x, 0, n), "
+                               "DJS(r, cost_matrix_1d, t, n, n, x) >= -0.001), 0, n, 0, n + 1)",
+            "locopt_sem_add": "forall(lambda t, x: implies(exists(lambda j: r[j] + 1 >= x, 0, n), "
+                              "DAS(r, cost_matrix_1d, t, n, n, x) >= -0.001), 0, n, 0, n + 2)",
         },
         assumed={
             "delta": "result == SC(r, 0, cost_matrix_1d, n, n) - SC(old(r), 0, cost_matrix_1d, n, n)",
@@ -443,6 +450,8 @@ def register(reg):
                 "loc_" + nm: "implies(terminated == 1, forall(lambda t: %s, 0, elem))" % (src.replace("%s", "max_id_bucket"))
                 for nm, src in LOCS.items()})),
         },
+        use_lemmas={"locopt_sem_join": ["delta_join_right", "delta_join_left"],
+                    "locopt_sem_add": ["delta_add_right", "delta_add_left"]},
         call_hints={
             "_search_to_change_bucket": [
                 "loc_join_r(CH0, r, cost_matrix_1d, elem, n, max_id_bucket, call_result)",
@@ -541,3 +550,130 @@ def register(reg):
               requires=dict(DW, k="k >= -1", range="forall(lambda j: 0 <= r[j] and r[j] <= k, 0, m)",
                             pair="0 <= e1 and e1 < e2 and e2 < m and r[e1] == r[e2]"),
               hints=["tot_is_len(r, m, k)", "tot_lower2(r, m, k, wit, e1, e2)"])
+
+    register_delta_lemmas(reg)
+
+
+def register_delta_lemmas(reg):
+    """The delta lemma (join moves): the cumulated differences equal the sum, over the other elements e2, of
+    cost(relation after the move) - cost(relation before the move).  Fubini-style exchange of the two sums, by induction."""
+    DL = ["C08", "C04", "C09"]
+    A = dict(r=Arr(Int), c=Arr(Real), t=Int, n=Int, e2=Int, x=Int)
+    Am = dict(r=Arr(Int), c=Arr(Real), t=Int, n=Int, m=Int, x=Int)
+    # relation of bucket a (of the moved element) to bucket b: 0 before, 1 after, 2 tied -> index of the cost cell
+    reg.spec("def rel(a, b):\n    return 0 if a < b else (1 if a > b else 2)", dict(a=Int, b=Int), Int)
+    # what moving t into bucket x changes for the pair (t, e2)
+    reg.spec("def dj(r, c, t, n, e2, x):\n"
+             "    return 0.0 if e2 == t else c[3*n*t + 3*e2 + rel(x, r[e2])] - c[3*n*t + 3*e2 + rel(r[t], r[e2])]", A, Real)
+    reg.spec("def DJS(r, c, t, n, m, x):\n    return 0.0 if m <= 0 else DJS(r, c, t, n, m - 1, x) + dj(r, c, t, n, m - 1, x)",
+             Am, Real)
+    # ---- to the right of the own bucket
+    reg.spec("def SCHE(r, c, t, n, e2, x):\n"
+             "    return 0.0 if x <= r[t] else SCHE(r, c, t, n, e2, x - 1) + ch(r, c, t, r[t], n, e2, x)", A, Real)
+    reg.spec("def closedJ(r, c, t, n, e2, x):\n"
+             "    return (ite(r[e2] <= x, c[3*n*t + 3*e2 + 2] - c[3*n*t + 3*e2], 0.0) + "
+             "ite(r[e2] + 1 <= x, c[3*n*t + 3*e2 + 1] - c[3*n*t + 3*e2 + 2], 0.0)) if r[t] < r[e2] else 0.0", A, Real)
+    reg.lemma("J_point", A, "SCHE(r, c, t, n, e2, x) == closedJ(r, c, t, n, e2, x)", props=DL, induction="x", base="r[t]")
+    reg.spec("def SCH(r, c, t, n, m, x):\n"
+             "    return 0.0 if x <= r[t] else SCH(r, c, t, n, m, x - 1) + CH(r, c, t, r[t], n, m, x)", Am, Real)
+    reg.lemma("J_zero", dict(r=Arr(Int), c=Arr(Real), t=Int, n=Int, x=Int), "SCH(r, c, t, n, 0, x) == 0", props=DL,
+              induction="x", base="r[t]")
+    reg.lemma("J_step", Am, "SCH(r, c, t, n, m + 1, x) == SCH(r, c, t, n, m, x) + SCHE(r, c, t, n, m, x)", props=DL,
+              induction="x", base="r[t]", requires={"m": "m >= 0"})
+    reg.spec("def SCL(r, c, t, n, m, x):\n"
+             "    return 0.0 if m <= 0 else SCL(r, c, t, n, m - 1, x) + closedJ(r, c, t, n, m - 1, x)", Am, Real)
+    reg.lemma("J_exchange", Am, "SCH(r, c, t, n, m, x) == SCL(r, c, t, n, m, x)", props=DL, induction="m", base="0",
+              requires={"x": "x >= r[t]"}, base_hints=["J_zero(r, c, t, n, x)"],
+              hints=["J_step(r, c, t, n, m, x)", "J_point(r, c, t, n, m, x)"])
+    reg.lemma("J_tail", dict(r=Arr(Int), c=Arr(Real), t=Int, n=Int, x=Int),
+              "SR_CH(r, c, t, n, x) == SCH(r, c, t, n, n, x) + ite(x >= r[t] + 1, "
+              "TIE(r, c, t, r[t], n, n, 1) - TIE(r, c, t, r[t], n, n, 2), 0.0)", props=DL, induction="x", base="r[t]")
+    reg.lemma("J_sem", Am, "SCL(r, c, t, n, m, x) + TIE(r, c, t, r[t], n, m, 1) - TIE(r, c, t, r[t], n, m, 2) == "
+                           "DJS(r, c, t, n, m, x)", props=DL, induction="m", base="0", requires={"x": "x > r[t]"})
+    # the delta lemma, join to the right: cumulated differences == semantic delta
+    reg.lemma("delta_join_right", dict(r=Arr(Int), c=Arr(Real), t=Int, n=Int, x=Int),
+              "SR_CH(r, c, t, n, x) == DJS(r, c, t, n, n, x)", props=DL, requires={"x": "x > r[t]", "n": "n >= 0"},
+              hints=["J_tail(r, c, t, n, x)", "J_exchange(r, c, t, n, n, x)", "J_sem(r, c, t, n, n, x)"])
+
+    P = "c[3*n*t + 3*e2%s]"
+    # what putting t alone in a new bucket at position x (before old bucket x) changes for the pair (t, e2)
+    reg.spec("def da(r, c, t, n, e2, x):\n"
+             "    return 0.0 if e2 == t else c[3*n*t + 3*e2 + ite(r[e2] < x, 1, 0)] - c[3*n*t + 3*e2 + rel(r[t], r[e2])]", A, Real)
+    reg.spec("def DAS(r, c, t, n, m, x):\n    return 0.0 if m <= 0 else DAS(r, c, t, n, m - 1, x) + da(r, c, t, n, m - 1, x)",
+             Am, Real)
+    L5 = dict(r=Arr(Int), c=Arr(Real), t=Int, n=Int, x=Int)
+
+    def right_chain(tag, contrib, BIG, closed_src, SUMK, tie_w, sem_sum, final_name):
+        """sums over k in (r[t], x]; contrib = ch / ad, BIG = CH / AD, SUMK = SR_CH / SR_AD"""
+        reg.spec("def E_%s(r, c, t, n, e2, x):\n    return 0.0 if x <= r[t] else E_%s(r, c, t, n, e2, x - 1) + "
+                 "%s(r, c, t, r[t], n, e2, x)" % (tag, tag, contrib), A, Real)
+        reg.spec("def closed_%s(r, c, t, n, e2, x):\n    return %s" % (tag, closed_src), A, Real)
+        reg.lemma("%s_point" % tag, A, "E_%s(r, c, t, n, e2, x) == closed_%s(r, c, t, n, e2, x)" % (tag, tag), props=DL,
+                  induction="x", base="r[t]")
+        reg.spec("def S_%s(r, c, t, n, m, x):\n    return 0.0 if x <= r[t] else S_%s(r, c, t, n, m, x - 1) + "
+                 "%s(r, c, t, r[t], n, m, x)" % (tag, tag, BIG), Am, Real)
+        reg.lemma("%s_zero" % tag, L5, "S_%s(r, c, t, n, 0, x) == 0" % tag, props=DL, induction="x", base="r[t]")
+        reg.lemma("%s_step" % tag, Am, "S_%s(r, c, t, n, m + 1, x) == S_%s(r, c, t, n, m, x) + E_%s(r, c, t, n, m, x)"
+                  % (tag, tag, tag), props=DL, induction="x", base="r[t]", requires={"m": "m >= 0"})
+        reg.spec("def C_%s(r, c, t, n, m, x):\n    return 0.0 if m <= 0 else C_%s(r, c, t, n, m - 1, x) + "
+                 "closed_%s(r, c, t, n, m - 1, x)" % (tag, tag, tag), Am, Real)
+        reg.lemma("%s_exchange" % tag, Am, "S_%s(r, c, t, n, m, x) == C_%s(r, c, t, n, m, x)" % (tag, tag), props=DL,
+                  induction="m", base="0", requires={"x": "x >= r[t]"}, base_hints=["%s_zero(r, c, t, n, x)" % tag],
+                  hints=["%s_step(r, c, t, n, m, x)" % tag, "%s_point(r, c, t, n, m, x)" % tag])
+        reg.lemma("%s_tail" % tag, L5, "%s(r, c, t, n, x) == S_%s(r, c, t, n, n, x) + ite(x >= r[t] + 1, "
+                  "TIE(r, c, t, r[t], n, n, %d) - TIE(r, c, t, r[t], n, n, 2), 0.0)" % (SUMK, tag, tie_w), props=DL,
+                  induction="x", base="r[t]")
+        reg.lemma("%s_sem" % tag, Am, "C_%s(r, c, t, n, m, x) + TIE(r, c, t, r[t], n, m, %d) - TIE(r, c, t, r[t], n, m, 2) "
+                  "== %s(r, c, t, n, m, x)" % (tag, tie_w, sem_sum), props=DL, induction="m", base="0",
+                  requires={"x": "x > r[t]"})
+        reg.lemma(final_name, L5, "%s(r, c, t, n, x) == %s(r, c, t, n, n, x)" % (SUMK, sem_sum), props=DL,
+                  requires={"x": "x > r[t]", "n": "n >= 0"},
+                  hints=["%s_tail(r, c, t, n, x)" % tag, "%s_exchange(r, c, t, n, n, x)" % tag,
+                         "%s_sem(r, c, t, n, n, x)" % tag])
+
+    right_chain("AR", "ad", "AD", "ite(r[t] < r[e2] and r[e2] + 1 <= x, " + P % " + 1" + " - " + P % "" + ", 0.0)",
+                "SR_AD", 1, "DAS", "delta_add_right")
+
+    Ad = dict(A, d=Int)
+    Amd = dict(Am, d=Int)
+    L5d = dict(L5, d=Int)
+
+    def left_chain(tag, contrib, BIG, closed_src, SUMK, top, tie_w, tail_cond, sem_sum, sem_req, final_name, final_req):
+        """sums over k in [x, top) with top = r[t] (join) or r[t] + 1 (new bucket); downward induction through the
+        distance d = top - x"""
+        reg.spec("def E_%s(r, c, t, n, e2, x):\n    return 0.0 if x >= %s else E_%s(r, c, t, n, e2, x + 1) + "
+                 "%s(r, c, t, r[t], n, e2, x)" % (tag, top, tag, contrib), A, Real)
+        reg.spec("def closed_%s(r, c, t, n, e2, x):\n    return %s" % (tag, closed_src), A, Real)
+        XD = {"x": "x == %s - d and x >= 0" % top}
+        reg.lemma("%s_point" % tag, Ad, "E_%s(r, c, t, n, e2, x) == closed_%s(r, c, t, n, e2, x)" % (tag, tag), props=DL,
+                  induction="d", base="0", requires=XD)
+        reg.spec("def S_%s(r, c, t, n, m, x):\n    return 0.0 if x >= %s else S_%s(r, c, t, n, m, x + 1) + "
+                 "%s(r, c, t, r[t], n, m, x)" % (tag, top, tag, BIG), Am, Real)
+        reg.lemma("%s_zero" % tag, L5d, "S_%s(r, c, t, n, 0, x) == 0" % tag, props=DL, induction="d", base="0", requires=XD)
+        reg.lemma("%s_step" % tag, Amd, "S_%s(r, c, t, n, m + 1, x) == S_%s(r, c, t, n, m, x) + E_%s(r, c, t, n, m, x)"
+                  % (tag, tag, tag), props=DL, induction="d", base="0", requires=dict(XD, m="m >= 0"),
+                  hints=["%s_step(r, c, t, n, m, x + 1, d)" % tag])
+        reg.spec("def C_%s(r, c, t, n, m, x):\n    return 0.0 if m <= 0 else C_%s(r, c, t, n, m - 1, x) + "
+                 "closed_%s(r, c, t, n, m - 1, x)" % (tag, tag, tag), Am, Real)
+        D = "%s - x" % top
+        reg.lemma("%s_exchange" % tag, Am, "S_%s(r, c, t, n, m, x) == C_%s(r, c, t, n, m, x)" % (tag, tag), props=DL,
+                  induction="m", base="0", requires={"x": "0 <= x and x <= %s" % top},
+                  base_hints=["%s_zero(r, c, t, n, x, %s)" % (tag, D)],
+                  hints=["%s_step(r, c, t, n, m, x, %s)" % (tag, D), "%s_point(r, c, t, n, m, x, %s)" % (tag, D)])
+        reg.lemma("%s_tail" % tag, L5d, "%s(r, c, t, n, x) == S_%s(r, c, t, n, n, x) + ite(%s, "
+                  "TIE(r, c, t, r[t], n, n, %d) - TIE(r, c, t, r[t], n, n, 2), 0.0)" % (SUMK, tag, tail_cond, tie_w), props=DL,
+                  induction="d", base="0", requires=XD)
+        reg.lemma("%s_sem" % tag, Am, "C_%s(r, c, t, n, m, x) + TIE(r, c, t, r[t], n, m, %d) - TIE(r, c, t, r[t], n, m, 2) "
+                  "== %s(r, c, t, n, m, x)" % (tag, tie_w, sem_sum), props=DL, induction="m", base="0", requires={"x": sem_req})
+        reg.lemma(final_name, L5, "%s(r, c, t, n, x) == %s(r, c, t, n, n, x)" % (SUMK, sem_sum), props=DL,
+                  requires={"x": final_req, "n": "n >= 0"},
+                  hints=["%s_tail(r, c, t, n, x, %s)" % (tag, D), "%s_exchange(r, c, t, n, n, x)" % tag,
+                         "%s_sem(r, c, t, n, n, x)" % tag])
+
+    left_chain("JL", "ch", "CH",
+               "(ite(x <= r[e2], " + P % " + 2" + " - " + P % " + 1" + ", 0.0) + ite(r[e2] != 0 and x <= r[e2] - 1, "
+               + P % "" + " - " + P % " + 2" + ", 0.0)) if r[e2] < r[t] else 0.0",
+               "SL_CH", "r[t]", 0, "x <= r[t] - 1", "DJS", "0 <= x and x < r[t]", "delta_join_left", "0 <= x and x < r[t]")
+    left_chain("AL", "ad", "AD",
+               "ite(r[e2] < r[t] and x <= r[e2], " + P % "" + " - " + P % " + 1" + ", 0.0)",
+               "SL_AD", "r[t] + 1", 0, "x <= r[t]", "DAS", "0 <= x and x <= r[t]", "delta_add_left", "0 <= x and x <= r[t]")
